@@ -121,6 +121,21 @@ add('C14', 'exploration',
     'DESIGN.md 3 C14', 'Oracle ref/secp256k1.py + ref/base58.py + hashlib; nonce owned as in C13.',
     'bounded exhaustive enumeration (complete product with full negative table) against a reference model')
 
+add('C06', 'model_checking',
+    'Explicit-state BFS over script prefixes on the real interpreter (114-token core alphabet, depth 4 quick / 5 thorough, two flag '
+    'sets): the library state after every prefix (stack, altstack, vfExec) is read back hook-free from its own EvalScriptError by '
+    'appending the always-failing OP_VERIF and compared with the reference state; verdict and final stack of every prefix as a '
+    'complete script are compared too; failed prefixes are absorbing. Plus exhaustive programs (all token sequences of length <=2 '
+    'over every opcode byte 0x4f..0xff and all push kinds, length 3 over the core alphabet, single tokens from 585 initial stacks), '
+    'operand products (24 encodings, WITHIN 24^3, PICK/ROLL, hash opcodes on every length 0..130, RIPEMD-160 on every length '
+    '0..600), every value around the four limits, CHECKSIG/CHECKMULTISIG with real keys (every slot assignment incl. duplicated '
+    'and out-of-order signatures, key order, dummy, NULLDUMMY, CODESEPARATOR placement) and VerifyScript on all short script '
+    'pairs and P2SH spends under all 12 flag sets.',
+    'DESIGN.md 3 C06', 'Oracle ref/interp.py (agrees with the repository\'s script_valid/invalid vectors restricted to implemented flags; '
+    'hash opcodes via hashlib; signatures via ref/secp256k1.py + ref/sighash.py). BFS dedup key = (stack, altstack, vfExec): '
+    'sound for the BFS alphabet (no valid signatures, op count far from 201).',
+    'explicit-state breadth-first search over the real interpreter with hook-free state extraction, plus bounded exhaustive program enumeration against a reference interpreter')
+
 NOT_YET = 'check not yet built in this revision of /verif (planned, see DESIGN.md section 3)'
 
 
